@@ -24,6 +24,7 @@ type table struct {
 	Outcomes []string
 	Pmin     float64
 	Bag      bool
+	Class    string
 	label    func(o *outcome) []string
 }
 
@@ -156,6 +157,29 @@ func buildTable(r *gen.Rand, kind string) *table {
 	case "ShuffleSites:arrangements":
 		n, L := r.Range(2, 4), r.Range(1, 3)
 		t.In = cellsInput(r, n, L, anyAlpha)
+		if n == 2 && r.Bool() {
+			// a column holding one letter in both cases (soft-masked a / A): two symbols, two arrangements
+			x := byte('a' + r.Intn(26))
+			X := x - 32
+			old := [2]byte{t.In.T[0].Seq[0], t.In.T[1].Seq[0]}
+			for i := range t.In.T {
+				b := []byte(t.In.T[i].Seq)
+				for j := range b {
+					if b[j] == x {
+						b[j] = old[0]
+					} else if b[j] == X {
+						b[j] = old[1]
+					}
+				}
+				t.In.T[i].Seq = string(b)
+			}
+			for i, ch := range []byte{x, X} {
+				b := []byte(t.In.T[i].Seq)
+				b[0] = ch
+				t.In.T[i].Seq = string(b)
+			}
+			t.Class = "column-of-one-letter-in-both-cases"
+		}
 		t.G = newArgs("ShuffleSites")
 		t.G.F["rate"], t.G.F["rogue"], t.G.B["stable"] = 1, 0, r.Bool()
 		ps := perms(n)
@@ -964,6 +988,9 @@ func runSupport(c *mon.Case) {
 		}
 	}
 	c.Count("table:" + kind)
+	if t.Class != "" {
+		c.Count("table-class:" + t.Class)
+	}
 	c.Count("mode:" + mode)
 	c.Add("draws", N)
 	c.Add("outcomes-enumerated", len(t.Outcomes))
